@@ -38,6 +38,7 @@ type c08 struct {
 	offsets  []uint64 // cumulative source lengths for the EOF sweep
 	allowed  map[string]bool
 	maxDigit []int
+	initV    []Violation
 }
 
 func init() { register(&c08{}) }
@@ -62,7 +63,7 @@ func (c *c08) Assumptions() []string {
 	return []string{
 		"the base is always a valid corpus program; grammar-generated programs, token soups and random byte strings as inputs are not claimed (input generation, not simulation)",
 		"the reader path replicates the four lines of libvore.compile (ParseReader, GenerateBytecode); the string and file paths call the real entry points",
-		"step budget = 200 x the fault-free compile of the base + 100000 logical steps; heap budget 1 GiB; both far above any legitimate compile of a corpus-sized source",
+		"step budget = min(200 x the fault-free compile of the base, 2500 per delivered source byte) + 100000 logical steps (the corpus needs <= 24 per byte); heap budget 1 GiB; both far above any legitimate compile of a corpus-sized source",
 		"hole = nil pointer or nil interface reachable from the returned program, except (type, field) places that are nil in some fault-free corpus compile",
 	}
 }
@@ -124,11 +125,19 @@ func (c *c08) Init(env *Env) error {
 		simrt.OpEnd()
 		st := simrt.Steps
 		simrt.Stop()
+		if oc.Class == "abort" || oc.Class == "panic" {
+			// a corpus program that compiles on a healthy tree in < 25000 steps
+			c.initV = append(c.initV, Violation{"bounded", "compile-" + oc.Class + ":base:" + panicKey(oc.Detail), fmt.Sprintf("the unfaulted corpus program %q (%q) does not compile within 5000000 steps: %s", it.Name, trunc(it.Src, 160), oc.String())})
+			continue
+		}
 		if v == nil || oc.Class != "ok" {
 			continue // the base must be a valid program
 		}
 		for _, h := range findHoles(v) {
 			c.allowed[h] = true
+		}
+		if os.Getenv("VORESIM_DEBUG") != "" {
+			fmt.Fprintf(os.Stderr, "C08 base %-40s len=%d steps=%d steps/byte=%.1f\n", trunc(it.Name, 40), len(it.Src), st, float64(st)/float64(len(it.Src)+16))
 		}
 		c.pool = append(c.pool, it)
 		c.steps = append(c.steps, st)
@@ -347,6 +356,9 @@ func (c *c08) Run(ctx *RunCtx) *RunResult {
 			res.Violations = append(res.Violations, Violation{oracle, key, detail})
 		}
 	}
+	for _, v := range c.initV {
+		addV(v.Oracle, v.Key, v.Detail)
+	}
 	pi := t.Draw(len(c.pool))
 	it := c.pool[pi]
 	path := []string{"reader", "string", "file"}[t.Draw(3)]
@@ -490,6 +502,11 @@ func (c *c08) Run(ctx *RunCtx) *RunResult {
 	ctx.Count("path_"+path, 1)
 
 	budget := 200*c.steps[pi] + 100000
+	// absolute bound: the corpus compiles in <= 24 logical steps per source
+	// byte on a healthy tree; 2500 per delivered byte is two orders above it
+	if abs := uint64(2500*(len(delivered)+16) + 100000); abs < budget {
+		budget = abs
+	}
 	simrt.Reset(1, nil, uint64(t.Draw(1<<16))+1)
 	simrt.Solo()
 	simrt.SetHeapLimit(1 << 30)
